@@ -1053,8 +1053,10 @@ def parse_tree_to_objgraph(
 
             # Dict for storing rules where key is position of rule instance in
             # text. Sorted based on nested rules.
+            # A span comes before every other span that contains it: later
+            # start first and, for the same start, shorter span first.
             model._pos_rule_dict = OrderedDict(
-                sorted(pos_rule_dict.items(), key=lambda x: x[0], reverse=True)
+                sorted(pos_rule_dict.items(), key=lambda x: (-x[0][0], x[0][1]))
             )
     # exception occurred during model creation
     except:  # noqa
